@@ -59,6 +59,16 @@ Closed table "Python construct -> model term".  TRACKED state: the local assigne
       self.__add_subproblem_objective_constraint() / <x>.append(..) / <x>.extend(..) / delattr(self, ..)
   `if`/`for` whose bodies consist of such statements only;  `if <c>: raise Exception(..)` before the loop
       (option / goal validation: raises before any hook runs)
+ `Goal.is_empty` (goal_programming_mixin_base.py) -> `isEmptyGenC10 g` = `C10.isEmpty g` (`isEmptyGen_eq_model`)
+  self.target_min / self.target_max                         SIDE: the target side `g.targetMin` / `g.targetMax`
+  <x> = self.target_<s>                                     local bound to that SIDE
+  if isinstance(<x>, Timeseries): <x> = <x>.values          local re-bound to the ENTRIES of the same side
+  isinstance(SIDE, Timeseries)                              `g.target<S>.isSeries`   (on ENTRIES: REJECTED)
+  np.any(np.isfinite(SIDE | ENTRIES))                       `anyFinite g.target<S>`   (some entry finite)
+  np.all(np.isfinite(SIDE | ENTRIES))                       `allFinite g.target<S>`   (every entry finite)
+  <b> = <bool expr>  /  not, and, or, True, False, <b>      Bool local / `!`, `&&`, `||`, `true`, `false`
+  if <bool expr>: return <bool expr>   (no else)            `if c then r else <rest of the body>`
+  return <bool expr>                                        the value;  comments / docstrings: no effect
  anything else                                              REJECTED (TranslationError)
 """
 import ast
@@ -487,6 +497,103 @@ theorem optimizeGen%(tag)s_eq_model (run : Nat) (pst : Persist) (r : RunSpec) :
   rw [h, hp, he]
 """
 
+class _Side:
+    def __init__(self, side, entries=False):
+        self.side, self.entries = side, entries
+
+    @property
+    def lean(self):
+        return "g.targetMin" if self.side == "min" else "g.targetMax"
+
+
+def translate_is_empty():
+    """`Goal.is_empty` -> a Lean Bool term over `g : C10.Goal` (table in the module header)"""
+    path = os.path.join(REPO, "src", "rtctools", "optimization", "goal_programming_mixin_base.py")
+    fn = _find_method(ast.parse(open(path).read()), "Goal", "is_empty")
+    env = {}
+
+    def side(node):
+        if isinstance(node, ast.Attribute) and isinstance(node.value, ast.Name) and node.value.id == "self" \
+                and node.attr in ("target_min", "target_max"):
+            return _Side(node.attr[-3:])
+        if isinstance(node, ast.Name) and isinstance(env.get(node.id), _Side):
+            return env[node.id]
+        return None
+
+    def np_call(node, names):
+        return isinstance(node, ast.Call) and isinstance(node.func, ast.Attribute) and node.func.attr in names \
+            and isinstance(node.func.value, ast.Name) and node.func.value.id in ("np", "numpy") \
+            and len(node.args) == 1 and not node.keywords
+
+    def expr(node):
+        if isinstance(node, ast.Constant) and isinstance(node.value, bool):
+            return "true" if node.value else "false"
+        if isinstance(node, ast.Name) and isinstance(env.get(node.id), str):
+            return env[node.id]
+        if isinstance(node, ast.UnaryOp) and isinstance(node.op, ast.Not):
+            return "(!%s)" % expr(node.operand)
+        if isinstance(node, ast.BoolOp):
+            op = " && " if isinstance(node.op, ast.And) else " || "
+            return "(" + op.join(expr(v) for v in node.values) + ")"
+        if isinstance(node, ast.Call) and isinstance(node.func, ast.Name) and node.func.id == "isinstance" \
+                and len(node.args) == 2 and isinstance(node.args[1], ast.Name) and node.args[1].id == "Timeseries":
+            sd = side(node.args[0])
+            if sd is not None and not sd.entries:
+                return sd.lean + ".isSeries"
+        if np_call(node, ("any", "all")) and np_call(node.args[0], ("isfinite",)):
+            sd = side(node.args[0].args[0])
+            if sd is not None:
+                return "(%s %s)" % ("anyFinite" if node.func.attr == "any" else "allFinite", sd.lean)
+        raise TranslationError("Goal.is_empty: expression outside the table: " + _dump(node))
+
+    def block(stmts):
+        if not stmts:
+            raise TranslationError("Goal.is_empty: a path falls off the end without `return`")
+        st, rest = stmts[0], stmts[1:]
+        if isinstance(st, ast.Expr) and isinstance(st.value, ast.Constant) and isinstance(st.value.value, str):
+            return block(rest)
+        if isinstance(st, ast.Return) and st.value is not None:
+            return expr(st.value)
+        if isinstance(st, ast.Assign) and len(st.targets) == 1 and isinstance(st.targets[0], ast.Name):
+            sd = side(st.value)
+            env[st.targets[0].id] = sd if sd is not None else expr(st.value)
+            return block(rest)
+        if isinstance(st, ast.If) and not st.orelse:
+            t = st.test
+            # if isinstance(x, Timeseries): x = x.values
+            if len(st.body) == 1 and isinstance(st.body[0], ast.Assign) and isinstance(t, ast.Call) \
+                    and isinstance(t.func, ast.Name) and t.func.id == "isinstance" and len(t.args) == 2 \
+                    and isinstance(t.args[0], ast.Name) and isinstance(env.get(t.args[0].id), _Side) \
+                    and isinstance(t.args[1], ast.Name) and t.args[1].id == "Timeseries":
+                a = st.body[0]
+                x = t.args[0].id
+                if len(a.targets) == 1 and isinstance(a.targets[0], ast.Name) and a.targets[0].id == x \
+                        and isinstance(a.value, ast.Attribute) and a.value.attr == "values" \
+                        and isinstance(a.value.value, ast.Name) and a.value.value.id == x:
+                    env[x] = _Side(env[x].side, entries=True)
+                    return block(rest)
+            if len(st.body) == 1 and isinstance(st.body[0], ast.Return) and st.body[0].value is not None:
+                c, r = expr(t), expr(st.body[0].value)
+                return "(if %s then %s else %s)" % (c, r, block(rest))
+        raise TranslationError("Goal.is_empty: statement outside the table: " + _dump(st))
+
+    return block(fn.body)
+
+
+IS_EMPTY_PIECE = """
+/-! ### Goal.is_empty (goal_programming_mixin_base.py) -/
+
+/-- `Goal.is_empty`, read through the table of the translator -/
+def isEmptyGenC10 (g : Goal) : Bool :=
+  %(term)s
+
+theorem isEmptyGen_eq_model (g : Goal) : isEmptyGenC10 g = C10.isEmpty g := by
+  unfold isEmptyGenC10 C10.isEmpty
+  cases g.targetMin.isSeries <;> cases g.targetMax.isSeries <;>
+    cases anyFinite g.targetMin <;> cases anyFinite g.targetMax <;> rfl
+"""
+
+
 PIECES = (
     ("goal_programming_mixin.py", "GoalProgrammingMixin", "MP", ".multiPass"),
     ("single_pass_goal_programming_mixin.py", "SinglePassGoalProgrammingMixin", "SP", ".singlePass"),
@@ -513,6 +620,13 @@ def gen_priority_loop(c):
         text += PIECE % d
         thms += ["prologueGen%s_eq_model" % tag, "passGen%s_eq_model" % tag, "epilogueGen%s_eq_model" % tag,
                  "optimizeGen%s_eq_model" % tag]
+    try:
+        text += IS_EMPTY_PIECE % dict(term=translate_is_empty())
+        thms.append("isEmptyGen_eq_model")
+    except TranslationError as e:
+        c.broken.append(("translator: Goal.is_empty", str(e)))
+    except (OSError, SyntaxError) as e:
+        c.broken.append(("translator: Goal.is_empty", "cannot read/parse the source: %s" % e))
     text += "\nend RtcVerif.Gen\n"
     if not thms:
         return []
